@@ -60,8 +60,10 @@ class ReadWritePropertyServices(Capability):
             if value is None:
                 raise PropertyError(apdu.propertyIdentifier)
 
-            # change atomic values into something encodeable
-            if issubclass(datatype, Atomic) or (issubclass(datatype, (Array, List)) and isinstance(value, list)):
+            # change atomic values into something encodeable, an element of an array
+            # can be a list itself (bit string)
+            if issubclass(datatype, Atomic) or (issubclass(datatype, (Array, List)) and isinstance(value, list) \
+                    and (apdu.propertyArrayIndex is None)):
                 value = datatype(value)
             elif issubclass(datatype, Array) and (apdu.propertyArrayIndex is not None):
                 if apdu.propertyArrayIndex == 0:
@@ -162,8 +164,10 @@ def read_property_to_any(obj, propertyIdentifier, propertyArrayIndex=None):
     if value is None:
         raise ExecutionError(errorClass='property', errorCode='unknownProperty')
 
-    # change atomic values into something encodeable
-    if issubclass(datatype, Atomic) or (issubclass(datatype, (Array, List)) and isinstance(value, list)):
+    # change atomic values into something encodeable, an element of an array
+    # can be a list itself (bit string)
+    if issubclass(datatype, Atomic) or (issubclass(datatype, (Array, List)) and isinstance(value, list) \
+            and (propertyArrayIndex is None)):
         value = datatype(value)
     elif issubclass(datatype, Array) and (propertyArrayIndex is not None):
         if propertyArrayIndex == 0:
